@@ -747,6 +747,56 @@ theorem callKV_ok {re : Reenter} {f : Val} {φ : Val → Val → Val} (hcb : Pur
   · exact StackSame.of_prefix ((Prefix.push t.stack v).trans (Prefix.push _ k)) hpre (by omega)
 
 
+/-! ## callbacks that may allocate -/
+
+/-- the realistic contract of a callback: like `PureCallback`, but the heap may change by what an
+    allocating (and collecting) computation does to it — every object reachable from the roots
+    the callback *leaves behind* (the stack without the two arguments, the guards, frames,
+    globals, open upvalues) is unchanged, fresh addresses only grow, the heap stays well-formed.
+    The result is still the pure function `φ` of the key and the value. -/
+structure GcCallback (re : Reenter) (f : Val) (φ : Val → Val → Val) : Prop where
+  ok : ∀ (s : VmState) (r : Val) (s' : VmState), 2 ≤ s.stack.count →
+    s.stack.count < s.stack.data.length → FreshNext s.heap → (re f).go s = (.ok r, s') →
+    r = φ (s.stack.peekLast 0) (s.stack.peekLast 1) ∧
+    Prefix s'.stack s.stack ∧ s'.stack.count + 2 = s.stack.count ∧
+    s'.guards = s.guards ∧ s'.frames = s.frames ∧ s'.globals = s.globals ∧
+    s'.openUpvalues = s.openUpvalues ∧
+    (∀ b o, Reach s.heap (rootAddrs s') b → s.heap.get b = some o → s'.heap.get b = some o) ∧
+    s.heap.next ≤ s'.heap.next ∧ FreshNext s'.heap
+
+theorem PureCallback.gc {re : Reenter} {f : Val} {φ : Val → Val → Val}
+    (h : PureCallback re f φ) : GcCallback re f φ :=
+  ⟨fun s r s' hc hl hf hok => by
+    obtain ⟨h1, h2, h3, h4, h5, h6, h7, h8⟩ := h.ok s r s' hc hl hok
+    exact ⟨h1, h2, h3, h5, h6, h7, h8, fun b o _ ho => by rw [h4]; exact ho,
+      by rw [h4]; exact Nat.le_refl _, by rw [h4]; exact hf⟩⟩
+
+/-- one round trip of an allocating callback, seen from `s₀` -/
+theorem Grown.callKV {s₀ t t' : VmState} {re : Reenter} {f : Val} {φ : Val → Val → Val}
+    (hcb : GcCallback re f φ) {k v r : Val} (hG : Grown s₀ t)
+    (hok : (callKV re f k v).go t = (.ok r, t')) :
+    r = φ k v ∧ Grown s₀ t' ∧ t'.guards = t.guards ∧ t.heap.next ≤ t'.heap.next ∧
+    (∀ b o, Reach t.heap (rootAddrs t) b → t.heap.get b = some o → t'.heap.get b = some o) := by
+  unfold Native.callKV at hok
+  obtain ⟨_, t₁, h1, hok⟩ := ok_bind hok
+  obtain ⟨_, t₂, h2, hok⟩ := ok_bind hok
+  obtain ⟨hc1, rfl⟩ := push_ok h1
+  obtain ⟨hc2, rfl⟩ := push_ok h2
+  dsimp only at hc2 hok
+  rw [List.length_set] at hc2
+  obtain ⟨hr, hpre, hcnt, hgu, hfr, hgl, hup, hkeep, hnext, hfresh⟩ := hcb.ok _ r t'
+    (by dsimp only; omega) (by dsimp only; rw [List.length_set, List.length_set]; omega)
+    (by exact hG.fresh) hok
+  dsimp only at hr hpre hcnt hgu hfr hgl hup hkeep hnext
+  have hst : StackSame t.stack t'.stack :=
+    StackSame.of_prefix ((Prefix.push t.stack v).trans (Prefix.push _ k)) hpre (by omega)
+  have hroots : rootAddrs t' = rootAddrs t := rootAddrs_congr hst.contents hgl hfr hup hgu
+  rw [hroots] at hkeep
+  refine ⟨?_, hG.step hst hfr hgl hup (fun g hg => by rw [hgu]; exact hG.guards g hg) hkeep hnext
+    hfresh, hgu, hnext, hkeep⟩
+  rw [hr, peekLast_push0 _ _ _ (by rw [List.length_set]; omega),
+    peekLast_succ_push, peekLast_push0 _ _ _ (by omega)]
+
 /-! ## a success-only frame logic: what a computation leaves alone *when it returns* -/
 
 /-- every successful run of `m` relates the state before to the state after by `R` -/
